@@ -724,7 +724,17 @@ def state_pipeline_table(ctx, rule):
         ('p', {'_label': 'op'}, [])])])]
     rows_i = [(':default', ['irad', 'osub', 'ifree1']), (':indeterminate', ['orad', 'ofree1', 'ofree2']), ('input[name=free]:not(:indeterminate)', ['ifree1', 'ifree2']), ('p:dir(rtl)', ['op']), ('p:dir(ltr)', ['ip']), ('html:dir(ltr)', ['root', 'iroot', 'html', 'html']),
               ('div:dir(ltr)', ['auto']), ('p:lang(fr)', ['op']), ('html:lang(fr)', ['root']), ('form input:checked', ['irad']), ('form :root', ['iroot'])]
+    # look-alike forms: two forms with identical markup are two forms (bs4 tags compare equal when their markup is equal)
+    TL = [('html', {}, [('body', {}, [
+        ('form', {'_label': 'fa'}, [('input', {'type': 'radio', 'name': 'g', '_label': 'a1'}, []), ('input', {'type': 'submit', '_label': 'as'}, [])]),
+        ('form', {'_label': 'fb'}, [('input', {'type': 'radio', 'name': 'g', '_label': 'b1'}, []), ('input', {'type': 'submit', '_label': 'bs'}, [])]),
+        ('form', {'_label': 'fc'}, [('input', {'type': 'radio', 'name': 'g', 'checked': '', '_label': 'c1'}, []), ('input', {'type': 'radio', 'name': 'g', '_label': 'c2'}, []),
+                                   ('input', {'type': 'submit', '_label': 'cs'}, [])]),
+        ('form', {'_label': 'fd'}, [('input', {'type': 'radio', 'name': 'g', '_label': 'd1'}, []), ('input', {'type': 'radio', 'name': 'g', '_label': 'd2'}, []),
+                                   ('input', {'type': 'submit', '_label': 'ds'}, [])])])])]
+    rows_l = [(':default', ['as', 'bs', 'c1', 'cs', 'ds']), (':indeterminate', ['a1', 'b1', 'd1', 'd2']), ('input[type=radio]:not(:indeterminate)', ['c1', 'c2'])]
     _rows_table(ctx, rule, 'state', [('dir=auto with invalid dir values below', 'html', TD, None, rows_d), ('nested forms and radio groups', 'html', TF, None, rows_f),
+                                     ('forms with identical markup', 'html', TL, None, rows_l),
                                      ('state across an iframe boundary', 'html', TI, None, rows_i)],
                 'soupsieve/css_match.py (match_dir / find_bidi / match_indeterminate / match_default / match_placeholder_shown)',
                 'the HTML Standard (directionality of dir=auto skips only children whose dir attribute is in a defined state; a radio group is the '
